@@ -51,9 +51,10 @@ Definition is_some {A} (o : option A) : bool := match o with Some _ => true | No
 Section Codecs.
   Variable b64_enc hex_enc : bytes -> bytes.
   Variable tool : bytes.                         (* base.LalPackSdp *)
-  (* true: the tree after the two rtmp2rtsp "fix:" commits of C06 - the Opus
+  (* true: the tree after the rtmp2rtsp "fix:" commits of C06 - the Opus
      packer runs at the 48000 Hz the sdp announces; an AVC sequence header with
-     several SPS / PPS is accepted (first SPS, first PPS) - false: the pinned
+     several SPS / PPS is accepted (first SPS, first PPS); metadata is ignored
+     once the analysis is done - false: the pinned
      tree (Opus packer at the metadata's audiosamplerate; such a header
      refused, so no video for RTSP consumers) *)
   Variable rtsp_fixed : bool.
@@ -190,6 +191,9 @@ Section Codecs.
   Definition feed_rtmp_msg (s : r2r) (i : rin) : r2r * list rout :=
     match i with
     | RMeta acodec rate =>
+      (* metadata only guides the analysis: once the SDP has been handed out it no longer changes what the audio
+         packer is created with (lal fix of C06; the pinned tree took it at any time) *)
+      if rtsp_fixed && q_done s then (s, []) else
       let apt := match acodec with
                  | Some c => if c =? sound_g711u then pt_g711u else if c =? sound_g711a then pt_g711a
                              else if c =? sound_opus then pt_opus else q_apt s
